@@ -28,7 +28,10 @@ Optional[bool] / Optional[Tuple[str, str]] returns an option (`return None` = No
 is followed by more statements is translated as `match (if c then A else B) with ...` so that the continuation appears once.
 For the constructor and the operators: `{v: e for v in <set>}`, `[... for a, b in <pairs or d.items()>]`, `len(xs) != len(set(xs))` (= a name occurs twice), `xs = []` / `xs.append((name, int))`,
 `==` / `!=` on sets, `for a, b in <pairs>`, `return CFDivisor(self.graph, pairs)` (the translated constructor on this object's own graph); a CFGraph parameter is seen through
-its vertex set and adjacency dictionary, a CFDivisor parameter through its graph's vertex set and its chips; `isinstance(n, int)` on a parameter annotated int is true."""
+its vertex set and adjacency dictionary, a CFDivisor parameter through its graph's vertex set and its chips; `isinstance(n, int)` on a parameter annotated int is true.
+A read `m[v][w]` through a local alias of self.laplacian is `0 when w is absent` only while every row CFLaplacian._construct_matrix creates is a `defaultdict(int)` in the
+current source (LAP_ROWS_DEFAULT), otherwise a strict lookup; `{v.name: <value that may raise> for v in <set>}` in a method that writes nothing is a loop over the set that stops
+at the first exception."""
 import ast, sys, os
 REPO = os.environ.get("CF_REPO", "/repo")
 OUT = os.path.join(os.path.dirname(os.path.abspath(__file__)), "..", "coq", "theories", "TranslatedImp.v")     # directory of the generated files TranslatedImp<Class>.v
